@@ -219,3 +219,43 @@ def bottom_tail_program(level, where, kind):
         ss.append(p.emit([p.str("r"), p.call(p.id("pcall"), [p.id("gcall"), bottom(), p.num(1)])]))
     ss.append(p.emit([p.str("after"), p.call(p.id("pcall"), [p.id("check"), p.num(2)])]))
     return p, p.block(ss)
+
+
+def overflow_program(catcher, shape, handler="plain"):
+    """recursion without bound under a protected call: the "stack overflow" error is an ordinary error; xpcall's
+    handler runs exactly once before unwinding (Lua 5.1 keeps spare frames for it) and its result is what comes back"""
+    p = Prog()
+    ss = [p.callstat(p.call(p.id("glimit"), [p.num(30)])), p.local(["x", "hits"], [p.num(1), p.num(0)])]
+    if shape == "plain":
+        deep = p.func(["k"], p.block([p.ret([p.bin("+", p.num(1), p.call(p.id("deep"), [p.bin("+", p.id("k"), p.num(1))]))])]))
+    elif shape == "capture":      # every level captures a local: the upvalues of all levels are closed by the unwinding
+        deep = p.func(["k"], p.block([p.local(["y"], [p.id("k")]), p.local(["g"], [p.func([], p.block([p.ret([p.id("y")])]))]),
+                                      p.ret([p.bin("+", p.call(p.id("deep"), [p.bin("+", p.id("k"), p.num(1))]), p.call(p.id("g"), []))])]))
+    elif shape == "method":
+        deep = p.func(["k"], p.block([p.local(["o"], [p.table([("k", p.add("str", s=list(b"m"), name=True), p.id("deep"))])]),
+                                      p.ret([p.bin("+", p.num(1), p.method(p.id("o"), "m", []))])]))
+    elif shape == "pcall-inside":  # an inner pcall catches the overflow and the level raises it again
+        deep = p.func(["k"], p.block([p.local(["ok", "e"], [p.call(p.id("pcall"), [p.id("deep"), p.bin("+", p.id("k"), p.num(1))])]),
+                                      p.callstat(p.call(p.id("error"), [p.id("e"), p.num(0)]))]))
+    ss.append(p.local(["deep"], [p.nil()]))
+    ss.append(p.assign([p.id("deep")], [deep]))
+    if handler == "plain":
+        h = p.func(["m"], p.block([p.assign([p.id("hits")], [p.bin("+", p.id("hits"), p.num(1))]), p.emit([p.str("handler"), p.call(p.id("type"), [p.id("m")]), p.id("hits"), p.id("x")]), p.ret([p.str("handled"), p.str("extra")])]))
+    elif handler == "calls":       # the handler itself calls a few levels deep
+        h = p.func(["m"], p.block([p.localfunction("down", p.func(["n"], p.block([p.if_([p.bin("==", p.id("n"), p.num(0))], [p.block([p.ret([p.str("bottom")])])]),
+                                                                                   p.ret([p.call(p.id("down"), [p.bin("-", p.id("n"), p.num(1))])])]))),
+                                   p.assign([p.id("hits")], [p.bin("+", p.id("hits"), p.num(1))]),
+                                   p.emit([p.str("handler"), p.call(p.id("type"), [p.id("m")]), p.id("hits"), p.call(p.id("down"), [p.num(3)])]), p.ret([p.str("handled")])]))
+    if catcher == "pcall":
+        ss.append(p.emit([p.str("r"), p.call(p.id("select"), [p.num(1), p.call(p.id("pcall"), [p.id("deep"), p.num(1)])])]))
+        ss.append(p.emit([p.str("type"), p.call(p.id("type"), [p.call(p.id("select"), [p.num(2), p.call(p.id("pcall"), [p.id("deep"), p.num(1)])])])]))
+    elif catcher == "xpcall":
+        ss.append(p.emit([p.str("r"), p.call(p.id("xpcall"), [p.func([], p.block([p.ret([p.call(p.id("deep"), [p.num(1)])])])), h])]))
+        ss.append(p.emit([p.str("hits"), p.id("hits")]))
+    elif catcher == "co":          # the overflow kills a coroutine; resume reports it
+        ss.append(p.local(["co"], [p.call(p.field(p.id("coroutine"), "create"), [p.id("deep")])]))
+        ss.append(p.emit([p.str("r"), p.call(p.id("select"), [p.num(1), p.call(p.field(p.id("coroutine"), "resume"), [p.id("co"), p.num(1)])]), p.call(p.field(p.id("coroutine"), "status"), [p.id("co")])]))
+    # afterwards the state works: bounded recursion and another protected call
+    ss.append(p.localfunction("fin", p.func(["n"], p.block([p.if_([p.bin("==", p.id("n"), p.num(0))], [p.block([p.ret([p.num(0)])])]), p.ret([p.bin("+", p.num(1), p.call(p.id("fin"), [p.bin("-", p.id("n"), p.num(1))]))])]))))
+    ss.append(p.emit([p.str("after"), p.id("x"), p.call(p.id("fin"), [p.num(10)]), p.call(p.id("pcall"), [p.id("error"), p.table([])])]))
+    return p, p.block(ss)
